@@ -1120,6 +1120,14 @@ def family_scenarios(rng, n_same, n_fs):
     return [gen_same_text(rng, i) for i in range(n_same)] + [gen_fromsub(rng, i) for i in range(n_fs)]
 
 
+def _n_interleavings(segs):
+    import math
+    n = math.factorial(sum(segs))
+    for k in segs:
+        n //= math.factorial(k)
+    return n
+
+
 def _differs(texts, topo, sched, led, raw):
     ser, res = _impl_only_unit((texts, topo, [sched], led, raw))
     return res[0] != ser
@@ -1129,12 +1137,12 @@ def check_impl_only(rng, cap, families=(), targeted=False):
     """Fixed scenario pairs + generated families, every topology, under driven schedules, against the serial results
     (and the serial results of the two topologies against each other).  targeted: second pass, made when the
     inventory found a shared cell and the first pass no schedule-dependent result - search harder (all interleavings
-    of cases with <= 10 steps, 40 schedules for the others) for a schedule that shows it."""
+    of family cases with <= 252 of them, 40 schedules for the others) for a schedule that shows it."""
     viol, runs, errs = [], 0, 0
     units, meta = [], []
     fam = {'scenarios': collections.Counter(), 'runs': collections.Counter(), 'shape_hist': collections.Counter(),
            'threads_hist': collections.Counter(), 'yield_points_per_thread': collections.Counter(),
-           'raw_text_runs': 0, 'shared_parsed_object_runs': 0, 'statements_raising': 0, 'samples': []}
+           'raw_text_runs': 0, 'shared_parsed_object_runs': 0, 'exhaustive_cases': 0, 'statements_raising': 0, 'samples': []}
     scen = [(n, t, 'meta', False, None) for n, t in IMPL_ONLY_META] + [(n, t, L_IO, False, None) for n, t in IMPL_ONLY]
     scen += list(families)
     sigs = set()
@@ -1154,11 +1162,18 @@ def check_impl_only(rng, cap, families=(), targeted=False):
                     fam['yield_points_per_thread'][min(k - 1, 40) // 5 * 5] += 1
                 if topo == 'shared-connection' and len(fam['samples']) < 14 and (info['family'] != 'same-text' or len(fam['samples']) < 7):
                     fam['samples'].append(' || '.join(texts))
-            # statements given as text are parsed in every run (~0.1 s each): a lower bound for the generated families
-            if sum(segs) <= (14 if info is None else 12) and cap >= 3432 or targeted and sum(segs) <= 10:
-                scheds = all_interleavings(segs)[0]
+            # statements given as text are parsed in every run (~0.1 s each): the generated families are enumerated
+            # exhaustively only up to 252 interleavings (2 threads x 5 steps), else 100 schedules
+            if info is None:
+                exhaustive = sum(segs) <= 14 and cap >= 3432
             else:
-                scheds = pick_schedules(rng, segs, min(cap, 150) if not targeted else 40)
+                exhaustive = _n_interleavings(segs) <= 252 and (cap >= 3432 or targeted)
+            if exhaustive:
+                scheds = all_interleavings(segs)[0]
+                if info:
+                    fam['exhaustive_cases'] += 1
+            else:
+                scheds = pick_schedules(rng, segs, (min(cap, 150) if info is None else min(cap, 100)) if not targeted else 40)
             for j in range(0, len(scheds), 8):
                 units.append((texts, topo, scheds[j:j + 8], led, raw))
                 meta.append((name, topo, texts, scheds[j:j + 8], led, raw, info))
